@@ -653,6 +653,12 @@ func run(cfg lib.Cfg) error {
 			if sc.Srcs[0].Batch == 1 {
 				sc.Srcs[0].Batch = 3 // a dependency-limited load shorter than the batch needs batch > 1
 			}
+			if mode == 0 {
+				// whole steps only: through the real client the order of a step's reference
+				// lookups varies from run to run (the recorder sorts an uninterrupted run of
+				// them); a statement-level schedule would cut that run at arbitrary places
+				mode = 1
+			}
 		}
 		// speed profile: weights per task
 		w := make([]int, g.nTasks+1)
